@@ -1,7 +1,7 @@
 (** * C01 — fixture resolution follows pytest's shadowing order.
     Statements only: each theorem is closed by [exact] of a lemma proved in Proofs/,
     pinned with [Check], and followed by [Print Assumptions]. *)
-From PLS Require Import Check.C01 Check.C07 Proofs.Basics Proofs.Cascade Proofs.WarmCold Proofs.ImportsComplete.
+From PLS Require Import Check.C01 Check.C07 Proofs.Basics Proofs.Cascade Proofs.WarmCold Proofs.ImportsComplete Proofs.SpecReach.
 
 (** Full-strength statement (FALSE of the faithful model, see [C01_refuted_import_provenance]):
       forall dk roots s F n, F <> [] -> allowed dk roots s F n (closest dk roots s F n) = true.
@@ -63,6 +63,14 @@ Theorem C01_never_invisible_in_every_reached_state :
     closest dk roots s F n = Some d -> visible dk roots s F n d = true /\ In d (defs_named s n).
 Proof. exact closest_visible_reached. Qed.
 Print Assumptions C01_never_invisible_in_every_reached_state.
+
+(** the specification's own import-source walk is a closure computation, not a bounded one:
+    its result does not change with more fuel than the bound it is run with *)
+Theorem C01_spec_import_walk_not_fuel_limited :
+  forall dk roots s n m k,
+    sources dk roots s (enough_fuel dk s + k) n m [] = sources dk roots s (enough_fuel dk s) n m [].
+Proof. exact sources_enough_fuel. Qed.
+Print Assumptions C01_spec_import_walk_not_fuel_limited.
 
 (** ** witnesses: reachable states built by the model's own [analyze] *)
 Definition fx (name : string) (line : N) : item :=
